@@ -87,14 +87,14 @@ CLAIMED["C02"] = ("other", "Mixed: (proof) the combinator layer - flatten_items,
                   "the &/| methods of AnyMarker/EmptyMarker/MultiMarker/MarkerUnion, MultiMarker.union_simplify / MarkerUnion.intersect_simplify (set algebra over members, comprehension invariant) - and the string-atom layer - MarkerExpression._evaluate against its specifier view (both operand orders), _merge_single_markers, MarkerExpression &/|, "
                   "EqualityMarkerUnion/InequalityMultiMarker replace/&/| over symbolic names, literals and value sets - are verified against 'result evaluates as the conjunction/disjunction of the operands' for all environments; "
                   "the merge logic for version-valued atoms (_merge_single_markers / _merge_python_version_single_markers: operator choice, equality shortcuts, re-wrapping through from_specifier) over abstract specifier views; "
-                  "(bounded) that a version atom holds iff its specifier view admits the environment's value, extras, and the distributive branch of cnf/dnf are assumed contracts, "
+                  "(bounded) extras, in / not in on versions, and the distributive branch of cnf/dnf are assumed contracts, "
                   "exercised by the run-time sweep of the same contract on real markers over the well-defined atom pool and an environment grid.",
                   "5 C02", "assumed (bounded) contracts listed in the evidence; law.C13; A-HASHSEED; recorded finding D14",
                   "contract-based deductive verification of the combinator layer (T-MARK, invariants, z3) + bounded stand-in for the atom layer")
 CLAIMED["C11"] = ("other", "Mixed: (proof, structured versions) MarkerExpression.from_specifier on python_version / python_full_version: for every single range with release-only bounds, every parsed ==P.* range and every parsed "
                   "!=P.* / !=V union the result is None or an atom whose (operator, value) clause denotes exactly the given specifier - the zero padding to X.Y.Z keeps the version, and never touches a ~= or wildcard operand - and the atom "
                   "carries that very specifier as its view; _normalize_python_version_specifier admits exactly the full versions whose python_version satisfies the atom (all operators, values X / X.Y / X.Y.0, all integers); "
-                  "_get_specifier parses the atom's own clause; (bounded) both directions on real objects: specifier view vs evaluate() for every listed atom shape (comparison, ~=, wildcard, in / not in) over the interpreter grid X.Y.Z, "
+                  "_get_specifier parses the atom's own clause; _evaluate on a version atom (both operand orders) holds exactly when the environment's value lies in the specifier view; (bounded) both directions on real objects: specifier view vs evaluate() for every listed atom shape (comparison, ~=, wildcard, in / not in) over the interpreter grid X.Y.Z, "
                   "from_specifier of simple specifiers re-evaluated on the grid.", "5 C11", "A-VER, A-PKG-PARSE; PEP 440 clause meaning on release-only versions written out in contracts/pyversion.py; _evaluate on versions (A-PKG-CONTAINS) and in/not in bounded only; finding D14",
                   "contract-based deductive verification of from_specifier (T-VER, z3 with deterministic instantiation) + bounded bridge sweep")
 CLAIMED["C03"] = ("other", "Mixed: (proof) _build_markers, the rewriting done while parsing: the marker built from packaging's parse tree evaluates as packaging's own fold of that tree (or of and-groups, nested lists recursively) "
